@@ -19,6 +19,7 @@ import (
 //   R<sid>                  client RST_STREAM(CANCEL)
 //   r<sid>.<n>              the handler calls Body.Read with an n-byte buffer (only when that cannot block)
 //   x<sid>                  the handler returns
+//   c<sid>                  the handler closes the request body (Body.Close()) and goes on
 // after every token: WINDOW_UPDATE (W<sid>:<inc>), RST_STREAM (R<sid>:<code>), GOAWAY (G:<code>) written by the
 // server and the result of a handler read (b<n> / bE / bW = would block, not called)
 type verifRxCmd struct {
@@ -51,6 +52,11 @@ func init() {
 				if c.read == 0 {
 					c.res <- ""
 					return
+				}
+				if c.read < 0 {
+					r.Body.Close()
+					c.res <- ""
+					continue
 				}
 				buf := make([]byte, c.read)
 				n, err := r.Body.Read(buf)
@@ -125,7 +131,7 @@ func init() {
 				}
 			case "R":
 				st.fr.WriteRSTStream(u(p[0]), ErrCodeCancel)
-			case "r", "x":
+			case "r", "x", "c":
 				id := u(p[0])
 				mu.Lock()
 				ch, b, done := cmds[id], bodies[id], returned[id]
@@ -134,6 +140,12 @@ func init() {
 					if kind == "r" {
 						pre = "bW"
 					}
+					break
+				}
+				if kind == "c" {
+					c := verifRxCmd{read: -1, res: make(chan string, 1)}
+					ch <- c
+					<-c.res
 					break
 				}
 				if kind == "x" {
